@@ -66,6 +66,7 @@ type sessCall struct {
 	Unique  bool
 	Name    string
 	Models  []apiBulk // bulkWrite
+	Partial bson.D    // createIndex inside idxabort only (the model never sees it)
 }
 
 func (c *sessCall) isWrite() bool {
@@ -123,6 +124,9 @@ func (c *sessCall) fields() string {
 		sortOpt()
 	case "createIndex":
 		sb.WriteString(`,"keys":` + vj.Enc(c.Keys) + `,"unique":` + strconv.FormatBool(c.Unique) + `,"expiry":0`)
+		if c.Partial != nil {
+			sb.WriteString(`,"partial":` + vj.Enc(c.Partial))
+		}
 	case "findOneAndDelete":
 		sb.WriteString(`,"q":` + vj.Enc(c.Q))
 		sortOpt()
@@ -975,7 +979,11 @@ func (m *sessRunner) coherent(cat *lungo.Catalog, where string, viol func(prop, 
 		return
 	}
 	for _, h := range sessSortedHandles(cat) {
-		for _, is := range indexIssues(cat.Namespaces[h]) {
+		issues := indexIssues(cat.Namespaces[h])
+		if is, bad := idIndexIssue(h, cat.Namespaces[h]); bad {
+			issues = append(issues, is)
+		}
+		for _, is := range issues {
 			if k := h.String() + "|" + is.reason + "|" + is.detail; m.reported[k] {
 				continue
 			} else if m.reported == nil {
@@ -1042,7 +1050,11 @@ func (m *sessRunner) txnIndexOp(t *lungo.Transaction, c *sessCall, viol func(pro
 	switch c.M {
 	case "createIndex":
 		keys := *bsonkit.Clone(&c.Keys)
-		name, err = t.CreateIndex(h, "", mongokit.IndexConfig{Key: &keys, Unique: c.Unique})
+		cfg := mongokit.IndexConfig{Key: &keys, Unique: c.Unique}
+		if c.Partial != nil {
+			cfg.Partial = bsonkit.Clone(&c.Partial)
+		}
+		name, err = t.CreateIndex(h, "", cfg)
 	case "dropIndex":
 		err = t.DropIndex(h, c.Name)
 	case "dropAllIndexes":
